@@ -1,1 +1,114 @@
-Theorem placeholder_removed_later : True. Proof. exact I. Qed. Print Assumptions placeholder_removed_later.
+(* C02 - Delivered messages are authentic and untampered.
+   Statements about Model/Handler.v (validated against the real handler by the correspondence run of
+   ./check C02).  Symbolic AEAD: [CEnc k n m a] decrypts only under key k with nonce n and authenticated
+   data a (= the datagram's IV and unmasked header, interned: C05 proves aad = received header bytes and
+   that any change of a datagram changes (aad, body)); a mutated ciphertext or tag is [CJunk].
+   Every theorem is closed by [exact] of a lemma of Proofs/HandlerB_*.v. *)
+From Coq Require Import List NArith Bool.
+From Discv5V Require Import Model.Handler Proofs.HandlerB_Base Proofs.HandlerB_Frame Proofs.HandlerB_Session
+  Proofs.HandlerB_Auth Proofs.HandlerB_Step Proofs.HandlerB_Examples.
+Import ListNotations.
+Local Open Scope N_scope.
+
+(* delivered_is_sent: a Request or Response handed to the application by a message packet is attributed
+   to exactly (src, from) - the id in the packet's header and the datagram's source address - and is
+   byte for byte the plaintext m of the packet's body [CEnc k n m aad], where k is a decryption key
+   (current, or the previous one kept across a re-key) of the session stored under exactly (src, from),
+   n is the packet's own nonce and aad its own authenticated data. *)
+Theorem C02_delivered_is_sent_request :
+  forall c h from src n aad ct now d h' out na rid body,
+  step c h (EvInbound from (PMsg src n aad ct)) now d = (h', out) ->
+  In (OEvent (HRequest na rid body)) out ->
+  na = (src, from) /\
+  exists se k, alist_get (src, from) (sessions (hs (tick c h now d))) = Some se /\
+    (k = s_dec se \/ exists oe, s_old se = Some (oe, k)) /\ ct = CEnc k n (MReq rid body) aad.
+Proof. exact request_delivered. Qed.
+Print Assumptions C02_delivered_is_sent_request.
+
+Theorem C02_delivered_is_sent_response :
+  forall c h from src n aad ct now d h' out na rid rb,
+  step c h (EvInbound from (PMsg src n aad ct)) now d = (h', out) ->
+  In (OEvent (HResponse na rid rb)) out ->
+  na = (src, from) /\
+  exists se k, alist_get (src, from) (sessions (hs (tick c h now d))) = Some se /\
+    (k = s_dec se \/ exists oe, s_old se = Some (oe, k)) /\ ct = CEnc k n (MResp rid rb) aad.
+Proof. exact response_delivered. Qed.
+Print Assumptions C02_delivered_is_sent_response.
+
+(* every output of the step, classified (also Established(Outgoing) / UnverifiableEnr after the ENR
+   request of an outgoing session need a delivered response) *)
+Theorem C02_message_step_outputs :
+  forall c h from src n aad ct now d h' out o,
+  step c h (EvInbound from (PMsg src n aad ct)) now d = (h', out) -> In o out ->
+  quiet_out o \/ msg_out_ok (hs (tick c h now d)) (src, from) n aad ct o.
+Proof. exact delivered_needs_session. Qed.
+Print Assumptions C02_message_step_outputs.
+
+(* ... and that key was derived for src (C01_session_origin), in every state satisfying the invariant *)
+Theorem C02_delivered_under_peer_key :
+  forall c h from src n aad ct now d h' out o,
+  KeyInv c h ->
+  step c h (EvInbound from (PMsg src n aad ct)) now d = (h', out) -> In o out -> attributing o ->
+  exists k m, ct = CEnc k n m aad /\ key_for c src k.
+Proof. exact delivered_under_key_for. Qed.
+Print Assumptions C02_delivered_under_peer_key.
+
+Theorem C02_key_invariant_reachable : forall c evs, KeyInv c (fst (run c init_state evs)).
+Proof. exact session_origin. Qed.
+Print Assumptions C02_key_invariant_reachable.
+
+(* tamper_rejected: anything attributed to a remote node needs a body that is a genuine ciphertext for
+   exactly this packet's nonce and authenticated data.  A body encrypted for another nonce or other
+   authenticated data (nonce, IV or any header byte changed; body spliced into another datagram), or a
+   ciphertext / tag that was flipped, truncated or extended ([CJunk]), delivers nothing: the step emits
+   WhoAreYou, RequestFailed or nothing. *)
+Theorem C02_tamper_rejected :
+  forall c h from src n aad ct now d h' out o,
+  step c h (EvInbound from (PMsg src n aad ct)) now d = (h', out) -> In o out -> attributing o ->
+  exists k m, ct = CEnc k n m aad.
+Proof. exact tamper_rejected. Qed.
+Print Assumptions C02_tamper_rejected.
+
+Theorem C02_tamper_rejected_cases :
+  forall c h from src n aad ct now d h' out o,
+  step c h (EvInbound from (PMsg src n aad ct)) now d = (h', out) -> In o out ->
+  (exists j, ct = CJunk j) \/ (exists k n' m a', ct = CEnc k n' m a' /\ (n' <> n \/ a' <> aad)) ->
+  ~ attributing o.
+Proof. exact tamper_rejected_cases. Qed.
+Print Assumptions C02_tamper_rejected_cases.
+
+(* other_address_other_session: the session consulted is the one stored under exactly (src, from).  A
+   datagram redirected to present another source address or another node id, for which no session is
+   stored, delivers nothing - whatever sessions exist under other addresses. *)
+Theorem C02_other_address_other_session :
+  forall c h from src n aad ct now d h' out o,
+  step c h (EvInbound from (PMsg src n aad ct)) now d = (h', out) ->
+  alist_get (src, from) (sessions (hs (tick c h now d))) = None ->
+  In o out -> ~ attributing o.
+Proof. exact other_address_other_session. Qed.
+Print Assumptions C02_other_address_other_session.
+
+(* a message packet never creates or re-keys a session *)
+Theorem C02_message_never_creates_session :
+  forall c h from src n aad ct now d,
+  let h' := fst (step c h (EvInbound from (PMsg src n aad ct)) now d) in
+  SessD h h' /\ incl (map fst (sessions h')) (map fst (sessions h)).
+Proof. exact message_never_creates_session. Qed.
+Print Assumptions C02_message_never_creates_session.
+
+(* ------------------------------------------------------------------------------------------ *)
+(* examples: a genuine request is delivered; the same ciphertext under another nonce or from another
+   address is answered with WHOAREYOU only *)
+Example C02_example_delivery :
+  step ex_cfg h_session (EvInbound 100 pkt_request) 14 nod = (h_session, [OEvent (HRequest (7, 100) 10 0)]) /\
+  alist_get (7, 100) (sessions h_session) =
+    Some {| s_enc := mk_key 3 1 5 7 1 true; s_dec := kd7; s_old := None; s_await := None; s_counter := 1 |}.
+Proof. split; [exact request_step | exact h_session_has_session]. Qed.
+Print Assumptions C02_example_delivery.
+
+Example C02_example_tampered :
+  snd (step ex_cfg h_session (EvInbound 100 (PMsg 7 (3, 4) 53 (CEnc kd7 (3, 3) (MReq 10 0) 53))) 14 nod) =
+    [OEvent (HWhoAreYou (7, 100) (3, 4))] /\
+  snd (step ex_cfg h_session (EvInbound 102 pkt_request) 14 nod) = [OEvent (HWhoAreYou (7, 102) (3, 3))].
+Proof. split; [exact request_step_tampered_nonce | exact request_step_other_address]. Qed.
+Print Assumptions C02_example_tampered.
